@@ -100,6 +100,24 @@ func buildC02(tier string, seed int64) *Family {
 		"preceding-sibling::*[@* = '1']", "//*[@*]/@*", "//*[@* > 0]", "//*[contains(@*, '1')]", "//@*[. = '1']", "//*[@a = @b]"} {
 		insts = append(insts, nodesetInst(t, acfg))
 	}
+	// carry-over between candidates needs two candidates that each have inner structure:
+	// larger documents (elements only matter here: one value, no attributes) for predicates
+	// whose inner path is a merged positional step, a descendant-over-descendant step, a
+	// parenthesised group or a doubly nested filter
+	big := docCfg{N: 6, A: 0, Names: "a,b", Pool: ","}
+	bigA := docCfg{N: 5, A: 1, Names: "a,b", Pool: ",1"}
+	if tier == "thorough" {
+		big = docCfg{N: 7, A: 0, Names: "a,b", Pool: ","}
+		bigA = docCfg{N: 6, A: 1, Names: "a,b", Pool: ",1"}
+	}
+	for _, t := range []string{"//*[descendant::a/descendant::b]", "//a[descendant::*/descendant::*]", "//*[descendant::a//b]", "*[descendant-or-self::a/descendant::b]",
+		"//*[(a)[1]]", "//*[(*)[2]]", "//a[(b | a)[1]]", "//*[a/b[1]]", "//*[*/*[2]]", "//*[a[b][1]]", "//*[b/a[not(*)]]", "//*[a/b[a]]", "//*[*[*[*]]]",
+		"//*[not(descendant::a/descendant::b)]", "//*[count(descendant::a/descendant::b) = 1]", "//*[a/b[1] or b]", "//a[*/*[last()]]"} {
+		insts = append(insts, nodesetInst(t, big))
+	}
+	for _, t := range []string{"//*[a[@a][2]]", "//*[*[@a][1]]", "//*[a/b[contains(., '1')]]", "//*[a/*[. = '1']]", "//*[*/a[@a = '1']]", "//*[(a)[1] = '1']", "//*[(*)[1]/@a]", "//*[a[. = '1'][1]]"} {
+		insts = append(insts, nodesetInst(t, bigA))
+	}
 	return &Family{
 		Instances: dedupInst(insts),
 		Canaries: []*vm.Instance{
